@@ -70,6 +70,18 @@ type c14Case struct {
 	N       int          `json:"n"`      // counter depth
 	NonMap  bool         `json:"nonmap"` // the first message is not a map
 	Choices []int        `json:"choices,omitempty"`
+	// Prelude: what happened to the crew before the judged message.  "" nothing; otherwise the crew starts with
+	// an extra recorder "tmp", everybody receives a warm-up broadcast, and then the captain deletes "tmp" and
+	// creates the recorder "new": swap (one captain message), swap2 (delete, then create), grow (create, then delete)
+	Prelude string `json:"prelude,omitempty"`
+}
+
+func (cs c14Case) members() []recMachine {
+	ms := append([]recMachine{}, cs.Crew...)
+	if cs.Prelude != "" {
+		ms = append(ms, recMachine{Id: "new", Mode: "none"})
+	}
+	return ms
 }
 
 func newTestCrew() (*Crew, error) {
@@ -103,12 +115,19 @@ type refMsg struct {
 func refRoute(cs c14Case) (logs map[string][]string, emitted []string) {
 	byId := map[string]recMachine{}
 	var ids []string
-	for _, m := range cs.Crew {
+	for _, m := range cs.members() {
 		byId[m.Id] = m
 		ids = append(ids, m.Id)
 	}
 	sort.Strings(ids)
 	logs = map[string][]string{}
+	if cs.Prelude != "" {
+		for _, m := range cs.Crew {
+			if m.Mode != "ghost" {
+				logs[m.Id] = append(logs[m.Id], "w") // the warm-up broadcast of the prelude
+			}
+		}
+	}
 	first := refMsg{trail: "0", n: cs.N}
 	if cs.NonMap {
 		first = refMsg{trail: "?", n: 0}
@@ -218,6 +237,41 @@ func c14Exec(cs c14Case) c14Obs {
 			return o
 		}
 	}
+	if cs.Prelude != "" {
+		if err := c.SetMachine(ctx, "tmp", &crew.SpecSource{Inline: recorderSpec()}, &core.State{NodeName: "start", Bs: map[string]interface{}{"mode": "none"}}); err != nil {
+			o.err = err.Error()
+			return o
+		}
+		var spec interface{}
+		js, _ := json.Marshal(recorderSpec())
+		json.Unmarshal(js, &spec)
+		create := map[string]interface{}{"new": map[string]interface{}{"spec": map[string]interface{}{"inline": spec}, "state": map[string]interface{}{"node": "start", "bs": map[string]interface{}{"mode": "none"}}}}
+		del := []interface{}{"tmp"}
+		pre := []interface{}{map[string]interface{}{"trail": "w", "n": 0.0}}
+		switch cs.Prelude {
+		case "swap":
+			pre = append(pre, map[string]interface{}{"to": "captain", "update": create, "delete": del})
+		case "swap2":
+			pre = append(pre, map[string]interface{}{"to": "captain", "delete": del}, map[string]interface{}{"to": "captain", "update": create})
+		default:
+			pre = append(pre, map[string]interface{}{"to": "captain", "update": create}, map[string]interface{}{"to": "captain", "delete": del})
+		}
+		for _, m := range pre {
+			var perr error
+			if p, pm, where := vh.Trap(func() { _, perr = c.ProcessMsg(ctx, m) }); p {
+				o.err = "panic in the prelude: " + pm + " @" + where
+				return o
+			}
+			if perr != nil {
+				o.err = "prelude: " + perr.Error()
+				return o
+			}
+		}
+		if c.Machines["tmp"] != nil || c.Machines["new"] == nil {
+			o.err = "prelude: the captain did not replace tmp by new"
+			return o
+		}
+	}
 	var r *Result
 	if p, pm, where := vh.Trap(func() { r, err = c.ProcessMsg(ctx, cs.firstMsg()) }); p {
 		o.err = "panic: " + pm + " @" + where
@@ -228,7 +282,7 @@ func c14Exec(cs c14Case) c14Obs {
 		return o
 	}
 	o.logs = map[string][]string{}
-	for _, m := range append(append([]recMachine{}, cs.Crew...), recMachine{Id: "x"}) {
+	for _, m := range append(cs.members(), recMachine{Id: "x"}) {
 		if mm := c.Machines[m.Id]; mm != nil && mm.State != nil {
 			if l, ok := mm.State.Bs["log"].([]interface{}); ok {
 				for _, x := range l {
@@ -274,7 +328,7 @@ func c14Judge(cs c14Case, o c14Obs) [][2]string {
 		return [][2]string{{"error", o.err}}
 	}
 	wantLogs, wantEmitted := refRoute(cs)
-	for _, m := range append(append([]recMachine{}, cs.Crew...), recMachine{Id: "x"}) {
+	for _, m := range append(cs.members(), recMachine{Id: "x"}) {
 		got, want := o.logs[m.Id], wantLogs[m.Id]
 		if m.Id == "x" {
 			// x is created in mid-cascade: whether a broadcast of the same round reaches it depends on the
@@ -421,7 +475,7 @@ func C14sio(c *vh.Ctx) {
 	depth := c.Pick(2, 3)
 	c.Bound("sio_counter_depth", depth)
 	c.Bound("sio_map_order_deviations", bound)
-	c.Rule("sio: crews of 1-3 recorder machines (ids a, b, \"\"; each appends every message it receives to a log in its bindings and emits according to its mode {nothing, one routed to X, one unrouted, two (routed+unrouted), one routed to a list with a repeated id}, optionally one machine that has a state but no specification, which can be shown nothing) plus the built-in timers and captain; first message with every routing target {absent, a, b, unknown id, \"*\", lists with unknown / repeated / non-string members, empty list, \"timers\", \"captain\", a number, \"\"} and a non-map message; counter depth up to the bound; every machine-iteration order with at most k deviating map ranges (vrange); oracle: a breadth-first reference router with the documented recipient rule - per machine the multiset of received messages, breadth-first order, every emitted message reported exactly once, emission order kept. states = (crew, target) cases, traces = executions.")
+	c.Rule("sio: crews of 1-3 recorder machines (ids a, b, \"\"; each appends every message it receives to a log in its bindings and emits according to its mode {nothing, one routed to X, one unrouted, two (routed+unrouted), one routed to a list with a repeated id}, optionally one machine that has a state but no specification, which can be shown nothing) plus the built-in timers and captain; first message with every routing target {absent, a, b, unknown id, \"*\", lists with unknown / repeated / non-string members, empty list, \"timers\", \"captain\", a number, \"\"} and a non-map message; also after a change of membership (a warm-up broadcast, then the captain replaces one machine by another - in one message, delete-then-create, create-then-delete - so that the crew has the same size but other members); counter depth up to the bound; every machine-iteration order with at most k deviating map ranges (vrange); oracle: a breadth-first reference router with the documented recipient rule - per machine the multiset of received messages, breadth-first order, every emitted message reported exactly once, emission order kept. states = (crew, target) cases, traces = executions.")
 	var idx uint64
 	for _, cr := range c14Crews(!c.Quick()) {
 		spawners := 0
@@ -450,6 +504,20 @@ func C14sio(c *vh.Ctx) {
 		idx++
 		if c.Mine(idx) {
 			one(c14Case{Crew: cr, To: "<absent>", NonMap: true})
+		}
+		// the crew's membership changed before the judged message (same size, other members)
+		for _, pre := range []string{"swap", "swap2", "grow"} {
+			if spawners > 0 {
+				break // the spawner's script remembers having spawned from the warm-up on: not a routing question
+			}
+			for _, to := range []interface{}{"<absent>", []interface{}{"new", "a"}} {
+				idx++
+				if !c.Mine(idx) || c.Expired() {
+					continue
+				}
+				c.R.States++
+				one(c14Case{Crew: cr, To: to, N: 1, Prelude: pre})
+			}
 		}
 	}
 }
